@@ -822,3 +822,117 @@ def known_probes(case, ctx):
     control_flow(case, ctx)
   except Violation as v:
     raise Violation(str(v), key='C05:while_loop-carry-immutable') from None
+
+
+# ----------------------------------------------------------------------------
+# nn.remat / nn.checkpoint with static_argnums: Python-valued arguments
+import functools as _functools
+import itertools as _itertools
+
+_SB_CACHE = {}
+
+
+def _sblock(layout, form, static):
+  """A module whose __call__ takes (x, mode, flip) in the order `layout`;
+  `mode` (str) and `flip` (bool) are used as Python values."""
+  key = (layout, form, static)
+  if key in _SB_CACHE:
+    return _SB_CACHE[key]
+
+  def body(self, **kw):
+    h = nn.Dense(3, name='dense')(kw['x'])
+    if kw['mode'] == 'tanh':
+      h = jnp.tanh(h)
+    elif kw['mode'] == 'relu':
+      h = nn.relu(h) + 0.1 * h
+    c = self.variable('counters', 'n', lambda: jnp.zeros((), jnp.int32))
+    if self.is_mutable_collection('counters'):
+      c.value = c.value + 1
+    if kw['flip']:
+      h = -h
+    return h * 2.0
+
+  a, b, c_ = layout
+
+  def call(self, p, q, r):
+    return body(self, **{a: p, b: q, c_: r})
+
+  if form == 'decorator':
+    call = _functools.partial(nn.remat, static_argnums=static)(
+        nn.compact(call))
+  else:
+    call = nn.compact(call)
+  cls = type('SBlock', (nn.Module,), {'__call__': call})
+  if form == 'class':
+    cls = nn.remat(cls, static_argnums=static)
+  elif form == 'checkpoint':
+    cls = nn.checkpoint(cls, static_argnums=static)
+  _SB_CACHE[key] = cls
+  return cls
+
+
+@clause('remat_static_args',
+        strategy=lambda: st.fixed_dictionaries({
+            'layout': st.permutations(['x', 'mode', 'flip']).map(tuple),
+            'form': st.sampled_from(['class', 'decorator', 'checkpoint']),
+            'order': st.sampled_from(['asc', 'desc', 'int-if-single']),
+            'mode_static': st.just(True),
+            'mode': st.sampled_from(['tanh', 'relu', 'id']),
+            'flip': st.booleans(), 'seed': st.integers(0, 2**16),
+            'mutable': st.booleans()}),
+        quick=120, thorough=3000, quick_shards=6, thorough_shards=16,
+        shrink=False,
+        rule='a module whose __call__ takes an array, a str and a bool in any '
+        'of the 6 argument orders (the Python-valued ones declared in '
+        'static_argnums, self counted as 0, listed ascending or descending) '
+        'under nn.remat (class or method decorator) / nn.checkpoint: init '
+        'tree, output, updated counter and gradients w.r.t. params and input '
+        'equal the plain module; non-trivial = a static argument comes first')
+def remat_static_args(case, ctx):
+  layout = tuple(case['layout'])
+  static = tuple(i + 1 for i, n in enumerate(layout) if n in ('mode', 'flip'))
+  if case['order'] == 'desc':
+    static = static[::-1]
+  form = case['form']
+  plain = _sblock(layout, 'plain', None)()
+  with sut(f'nn.remat ({form}, static_argnums={static})'):
+    wrapped = _sblock(layout, form, static)()
+  rng = np.random.default_rng(case['seed'])
+  x = jnp.asarray(rng.normal(size=(2, 3)), jnp.float32)
+  vals = {'x': x, 'mode': case['mode'], 'flip': case['flip']}
+  args = tuple(vals[n] for n in layout)
+  key = jax.random.key(case['seed'])
+  with sut('plain init'):
+    Vp = unfreeze(plain.init(key, *args))
+  with sut(f'remat init (static_argnums={static}, layout={layout})'):
+    Vw = unfreeze(wrapped.init(key, *args))
+  require(tree_close(Vp, Vw, 0), lambda: 'init under nn.remat differs from the '
+          f'plain module: {jax.tree_util.tree_map(np.shape, Vw)} vs '
+          f'{jax.tree_util.tree_map(np.shape, Vp)}')
+  mut = ['counters'] if case['mutable'] else False
+
+  def loss(mod, params, xx):
+    a = tuple(xx if n == 'x' else vals[n] for n in layout)
+    r = mod.apply({'params': params, 'counters': Vp['counters']}, *a,
+                  mutable=mut)
+    y, upd = r if mut else (r, {})
+    return jnp.sum(y * y), (y, upd)
+
+  with sut('plain apply/grad'):
+    (lp, (yp, up)), gp = jax.value_and_grad(
+        lambda p, xx: loss(plain, p, xx), argnums=(0, 1), has_aux=True)(
+            Vp['params'], x)
+  with sut(f'remat apply/grad (static_argnums={static}, layout={layout}, '
+           f'form={form})'):
+    (lw, (yw, uw)), gw = jax.value_and_grad(
+        lambda p, xx: loss(wrapped, p, xx), argnums=(0, 1), has_aux=True)(
+            Vp['params'], x)
+  require(out_eq(yp, yw, 1e-6), 'output under nn.remat differs')
+  require(tree_close(unfreeze(up), unfreeze(uw), 0), 'counter under nn.remat '
+          'differs')
+  require(tree_close({'p': gp[0], 'x': {'x': gp[1]}},
+                     {'p': gw[0], 'x': {'x': gw[1]}}, 1e-5),
+          'gradients under nn.remat differ')
+  ctx.note(labels=[form, 'layout-' + ''.join(n[0] for n in layout),
+                   case['order']],
+           nontrivial=layout[0] != 'x')
